@@ -29,8 +29,16 @@ pub struct Scn {
     /// requests carry an OPT record (a slipped response must keep its OPT and nothing else)
     #[serde(default)]
     pub edns: bool,
+    /// shared-slot mode (table size 1): the stream each request belongs to (index into STREAMS);
+    /// a request of another stream takes the slot over, as documented (count 1, refill time now).
+    /// Empty = one stream throughout (the one of `category`).
+    #[serde(default)]
+    pub streams: Vec<u8>,
 }
 pub struct C26;
+
+/// (QNAME, category): two NOERROR streams (different names), the NXDOMAIN stream, the error stream.
+const STREAMS: [(&str, usize); 4] = [("www.example.", 0), ("mail.example.", 0), ("nosuch.example.", 1), ("www.elsewhere.", 2)];
 
 const S: u64 = 1_000_000_000;
 
@@ -112,16 +120,30 @@ impl Prop for C26 {
             gaps_ns.push(idle_s.min(MAX_GAP_S) * S + r.below(2) * r.below(S));
             gaps_ns.extend(vec![0; cap + range(r, 1, 3) as usize]);
         }
-        Scn {
-            rates,
-            window,
-            slip: *pick(r, &[0usize, 0, 1, 1, 2, 7]),
-            category,
-            gaps_ns,
-            hash_key: r.next(),
-            table_size: *pick(r, &[1usize, 3, 64]),
-            edns: chance(r, 30),
+        let mut table_size = *pick(r, &[1usize, 3, 64]);
+        let mut streams = vec![];
+        if chance(r, 20) {
+            // several streams taking turns in the single slot of a size-1 table
+            table_size = 1;
+            let pool: Vec<u8> = {
+                let mut p = vec![[0u8, 2, 3][category]];
+                while p.len() < range(r, 2, 3) as usize {
+                    let c = r.below(4) as u8;
+                    if !p.contains(&c) {
+                        p.push(c);
+                    }
+                }
+                p
+            };
+            let mut cur = pool[0];
+            for _ in 0..gaps_ns.len() {
+                if chance(r, 25) {
+                    cur = *pick(r, &pool);
+                }
+                streams.push(cur);
+            }
         }
+        Scn { rates, window, slip: *pick(r, &[0usize, 0, 1, 1, 2, 7]), category, gaps_ns, hash_key: r.next(), table_size, edns: chance(r, 30), streams }
     }
     fn plan(r: &mut SplitMix, _scn: &Scn) -> ExecPlan {
         ExecPlan { seed: r.next(), strategy: Strategy::Random, clock: ClockPolicy::Des, max_steps: 200_000 }
@@ -135,15 +157,20 @@ impl Prop for C26 {
         if s.gaps_ns.len() > 1 {
             let mut c = s.clone();
             c.gaps_ns.truncate(s.gaps_ns.len() / 2);
+            c.streams.truncate(c.gaps_ns.len());
             out.push(c);
             let mut c = s.clone();
             c.gaps_ns.pop();
+            c.streams.truncate(c.gaps_ns.len());
             out.push(c);
         }
         for i in 0..s.gaps_ns.len().min(24) {
             if s.gaps_ns.len() > 1 {
                 let mut c = s.clone();
                 c.gaps_ns.remove(i);
+                if i < c.streams.len() {
+                    c.streams.remove(i);
+                }
                 out.push(c);
             }
         }
@@ -157,6 +184,12 @@ impl Prop for C26 {
         if s.table_size != 1 {
             let mut c = s.clone();
             c.table_size = 1;
+            out.push(c);
+        }
+        if !s.streams.is_empty() && s.streams.iter().all(|x| *x == s.streams[0]) {
+            let mut c = s.clone();
+            c.category = STREAMS[s.streams[0] as usize].1;
+            c.streams.clear();
             out.push(c);
         }
         if s.slip != 0 {
@@ -178,11 +211,11 @@ impl Prop for C26 {
         h
     }
     fn rule() -> String {
-        "one execution = one request-time history of 5-60 UDP queries of a single response stream (NOERROR / NXDOMAIN / REFUSED category, each with its own rate), gaps drawn from {0, sub-second, 1s-1ns, 1s, 1s+1ns, k s, window, window+-1, hours, 10^6..10^9 s, around 2^32/rate s}; rates 1..2^31/window, window 1..60, slip {0,1,2,7}; the simulated clock advances by exactly the gap; every step is compared with a u128 reference bucket. Non-trivial = history contains a gap >= 1 s after the first request; distinct = distinct scenario".into()
+        "one execution = one request-time history of 5-60 UDP queries of a single response stream (NOERROR / NXDOMAIN / REFUSED category, each with its own rate), gaps drawn from {0, sub-second, 1s-1ns, 1s, 1s+1ns, k s, window, window+-1, hours, 10^6..10^9 s, around 2^32/rate s}; rates 1..2^31/window, window 1..60, slip {0,1,2,7}; the simulated clock advances by exactly the gap; every step is compared with a u128 reference bucket. In a fifth of the histories 2-3 streams (two NOERROR names, NXDOMAIN, REFUSED; each category with its own rate) take turns in the single slot of a size-1 table and the reference models the documented take-over. Non-trivial = history contains a gap >= 1 s after the first request; distinct = distinct scenario".into()
     }
     fn assumptions() -> Vec<String> {
         vec![
-            "one stream per limiter so that documented table-collision eviction cannot occur".into(),
+            "one stream per limiter so that documented table-collision eviction cannot occur - or, in shared-slot mode (a fifth of the histories), a table of size 1 in which every stream uses the one slot, so that every take-over is predictable and is modelled (count 1, refill time now)".into(),
             "with slip >= 2 a limited response may be slipped or dropped (random by design); only 'not sent in full' is checked".into(),
             "total simulated time per history stays below the range of the simulated Instant (u64 nanoseconds)".into(),
         ]
@@ -197,7 +230,7 @@ impl Prop for C26 {
         "E3 simrt-sequential"
     }
     fn expected_probes() -> Vec<&'static str> {
-        vec!["c26_limited", "c26_refill_partial", "c26_refill_to_empty", "c26_gap_over_2pow32_div_rate", "c26_subsecond_carry"]
+        vec!["c26_limited", "c26_refill_partial", "c26_refill_to_empty", "c26_gap_over_2pow32_div_rate", "c26_subsecond_carry", "c26_slot_taken_over"]
     }
 }
 
@@ -209,14 +242,13 @@ fn run(scn: &Scn) {
     p.set_slip(scn.slip);
     p.set_size(scn.table_size).expect("size");
     server.set_rrl_params(Some(p));
-    let qn = ["www.example.", "nosuch.example.", "www.elsewhere."][scn.category];
-    let rate = scn.rates[scn.category] as u128;
-    let cap = rate * scn.window as u128;
     let src = IpAddr::V4(Ipv4Addr::new(198, 51, 100, 7));
     let mut buf = vec![0u8; 2048];
 
-    let (mut used, mut last): (u128, u128) = (0, 0);
+    // reference: the slot's owner stream, tokens used, last refill instant
+    let (mut owner, mut used, mut last): (Option<u8>, u128, u128) = (None, 0, 0);
     let mut t: u128 = simrt::now_ns() as u128;
+    let (mut rate, mut cap) = (0u128, 0u128);
     for (i, gap) in scn.gaps_ns.iter().enumerate() {
         if *gap > 0 {
             simrt::advance(Duration::from_nanos(*gap));
@@ -225,7 +257,16 @@ fn run(scn: &Scn) {
         if simrt::now_ns() as u128 != t {
             panic!("harness: simulated clock out of step");
         }
-        let expect_send = if i == 0 {
+        let stream = scn.streams.get(i).copied().unwrap_or([0u8, 2, 3][scn.category]);
+        let (qn, cat) = STREAMS[stream as usize];
+        let expect_send = if owner != Some(stream) {
+            // first response of the stream in this slot (or documented take-over of the slot)
+            if owner.is_some() {
+                simrt::probe("c26_slot_taken_over");
+            }
+            owner = Some(stream);
+            rate = scn.rates[cat] as u128;
+            cap = rate * scn.window as u128;
             used = 1;
             last = t;
             true
@@ -282,7 +323,7 @@ fn run(scn: &Scn) {
                 }
             },
         };
-        let detail = || format!("step {i} at t+{}ns (gap {}ns): rate {} window {} slip {} category {}; reference bucket used={} cap={}", t - simrt::MONO_BASE_NS as u128, gap, rate, scn.window, scn.slip, scn.category, used, cap);
+        let detail = || format!("step {i} at t+{}ns (gap {}ns): rate {} window {} slip {} stream {} ({}); reference bucket used={} cap={}", t - simrt::MONO_BASE_NS as u128, gap, rate, scn.window, scn.slip, stream, qn, used, cap);
         if expect_send {
             if !full {
                 viol("limited-although-bucket-has-tokens", detail());
